@@ -42,60 +42,63 @@ let st_line s ws ok =
   | ["ens"; c] -> let (s', b) = st_ensure s (z_of_string c) ok in (s', "r=" ^ string_of_bool01 b, [])
   | _ -> (s, "r=?", [])
 
-(* ---- linked list ---- *)
+(* ---- linked list: the HEAP-level model (prev/next maps); the dump is produced by walking the
+   pointers in both directions, as the C driver does ---- *)
 let item (id, d) = sz id ^ ":" ^ sz d
+let bw_ok fw bw = if bw = List.rev (List.map fst fw) then "ok" else "BAD"
 let ll_dump s =
-  let l = s.litems in
-  let first = match l with [] -> "X" | (id, _) :: _ -> sz id in
-  let last = match List.rev l with [] -> "X" | (id, _) :: _ -> sz id in
-  Printf.sprintf "sz=%s empty=%d fw=[%s] bw=ok first=%s last=%s" (sz s.lsize) (if l = [] then 1 else 0)
-    (join item l) first last
+  let fw = hl_forward s in
+  Printf.sprintf "sz=%s empty=%d fw=[%s] bw=%s first=%s last=%s" (sz s.hsize) (if hl_is_empty s then 1 else 0)
+    (join item fw) (bw_ok fw (hl_backward s)) (opt_z (hl_first s)) (opt_z (hl_last s))
 
-let ll_pos p = if p = "N" then None else Some (z_of_string p)
-let ll_bad s = function None -> false | Some k -> not (pos_ok s k)
+(* N = NULL, k = the k-th node (first, then k times next); None = invalid position *)
+let ll_node s p =
+  if p = "N" then Some None
+  else
+    let k = int_of_string p in
+    if k < 0 || k >= int_of_z s.hsize then None else Some (hl_at s (z_of_int k))
 
 let ll_line s ws ok =
   match ws with
   | ["ins"; p; d] ->
-    let pos = ll_pos p in
-    if ll_bad s pos then (s, "badpos", None) else
-    let (s', r) = ll_insert s pos (z_of_string d) ok in (s', "r=" ^ opt_z r, Some [])
+    (match ll_node s p with
+     | None -> (s, "badpos", [])
+     | Some node -> let (s', r) = hl_insert s node (z_of_string d) ok in (s', "r=" ^ opt_z r, []))
   | ["app"; p; d] ->
-    let pos = ll_pos p in
-    if ll_bad s pos then (s, "badpos", None) else
-    let (s', r) = ll_append s pos (z_of_string d) ok in (s', "r=" ^ opt_z r, Some [])
+    (match ll_node s p with
+     | None -> (s, "badpos", [])
+     | Some node -> let (s', r) = hl_append s node (z_of_string d) ok in (s', "r=" ^ opt_z r, []))
   | ["rem"; p] ->
-    let pos = ll_pos p in
-    (match pos with
-     | None -> (s, "badpos", None)
-     | Some k -> if ll_bad s pos then (s, "badpos", None) else
-         let ((s', r), f) = ll_remove s k in (s', "r=" ^ opt_z r, Some f))
+    (match ll_node s p with
+     | Some (Some n) -> let ((s', r), f) = hl_remove s n in (s', "r=" ^ opt_z r, f)
+     | _ -> (s, "badpos", []))
   | ["find"; p; d] ->
-    let pos = ll_pos p in
-    if ll_bad s pos then (s, "badpos", None) else
-    (s, "r=" ^ opt_z (ll_find cmp_key s pos (z_of_string d)), Some [])
-  | ["clear"] -> let (s', f) = ll_clear s in (s', "r=-", Some f)
-  | _ -> (s, "r=?", Some [])
+    (match ll_node s p with
+     | None -> (s, "badpos", [])
+     | Some node -> (s, "r=" ^ opt_z (hl_find cmp_key s node (z_of_string d)), []))
+  | ["clear"] -> (match hl_clear s with Some (s', f) -> (s', "r=-", f) | None -> (s, "STUCK", []))
+  | _ -> (s, "r=?", [])
 
-(* ---- queue ---- *)
+(* ---- queue (heap level) ---- *)
 let qu_dump s =
-  let l = s.qitems in
-  Printf.sprintf "sz=%s empty=%d fw=[%s] bw=ok front=%s" (sz s.qsize) (if l = [] then 1 else 0)
-    (join item l) (match qu_front s with None -> "X" | Some x -> item x)
+  let fw = hl_forward s in
+  Printf.sprintf "sz=%s empty=%d fw=[%s] bw=%s front=%s" (sz s.hsize) (if hl_is_empty s then 1 else 0)
+    (join item fw) (bw_ok fw (hl_backward s)) (match hq_front s with None -> "X" | Some x -> item x)
 
 let qu_line s ws ok =
   match ws with
-  | ["enq"; d] -> let (s', r) = qu_enqueue s (z_of_string d) ok in (s', "r=" ^ opt_z r, [])
-  | ["deq"] -> let (s', f) = qu_dequeue s in (s', "r=-", f)
-  | ["clear"] -> let (s', f) = qu_clear s in (s', "r=-", f)
+  | ["enq"; d] -> let (s', r) = hq_enqueue s (z_of_string d) ok in (s', "r=" ^ opt_z r, [])
+  | ["deq"] -> let (s', f) = hq_dequeue s in (s', "r=-", f)
+  | ["clear"] -> (match hq_clear s with Some (s', f) -> (s', "r=-", f) | None -> (s, "STUCK", []))
   | _ -> (s, "r=?", [])
 
-(* ---- pointer slot ---- *)
+(* ---- pointer slot (cursor part functional, head..tail list at heap level) ---- *)
 let data_or_x d = if d = Z0 then "X" else sz d
 let ps_dump s =
-  let cap = int_of_z s.pcap in
-  let gets = List.init (cap + 2) (fun i -> match ps_get s (z_of_int i) with None -> "OOB" | Some d -> data_or_x d) in
-  Printf.sprintf "cap=%d it=[%s] bw=ok get=[%s]" cap (join item (ps_iter s)) (String.concat "," gets)
+  let cap = int_of_z s.hcore.pcap in
+  let gets = List.init (cap + 2) (fun i -> match hps_get s (z_of_int i) with None -> "OOB" | Some d -> data_or_x d) in
+  let it = hps_iter s in
+  Printf.sprintf "cap=%d it=[%s] bw=%s get=[%s]" cap (join item it) (bw_ok it (hps_backward s)) (String.concat "," gets)
 
 let pres_s = function POk -> "ok" | PFull -> "full" | PRange -> "range" | PDup -> "dup"
 
@@ -103,21 +106,21 @@ let pres_s = function POk -> "ok" | PFull -> "full" | PRange -> "range" | PDup -
 let ps_line s ws =
   match ws with
   | ["ins"; d] ->
-    (match ps_insert s (z_of_string d) with
+    (match hps_insert s (z_of_string d) with
      | None -> None
      | Some (s', (r, i)) -> Some (s', if r = POk then "r=ok:" ^ sz i else "r=" ^ pres_s r))
   | ["rem"; i] ->
-    (match ps_remove s (u32 (z_of_string i)) with
+    (match hps_remove s (u32 (z_of_string i)) with
      | None -> None
      | Some (s', r) -> Some (s', "r=" ^ pres_s r))
   | ["get"; i] ->
-    (match ps_get s (u32 (z_of_string i)) with
+    (match hps_get s (u32 (z_of_string i)) with
      | None -> None
      | Some d -> Some (s, "r=" ^ data_or_x d))
   | _ -> Some (s, "r=?")
 
 (* ---- protocol ---- *)
-type st = NoC | AL of alist | ST of stack | LL of llist | QU of queue | PS of pslot | Oob
+type st = NoC | AL of alist | ST of stack | LL of hlist | QU of hlist | PS of hpslot | Oob
 
 let handle (lines : string list) : unit =
   match lines with
@@ -128,12 +131,12 @@ let handle (lines : string list) : unit =
       match ws with
       | ["al"; c] -> (match al_init (z_of_string c) ok with Some s -> print_endline ("init ok | " ^ al_dump s); AL s | None -> NoC)
       | ["st"; c] -> (match st_init (z_of_string c) ok with Some s -> print_endline ("init ok | " ^ st_dump s); ST s | None -> NoC)
-      | ["ll"; c] -> (match ll_init (z_of_string c) ok with Some s -> print_endline ("init ok | " ^ ll_dump s); LL s | None -> NoC)
-      | ["qu"; c] -> (match qu_init (z_of_string c) ok with Some s -> print_endline ("init ok | " ^ qu_dump s); QU s | None -> NoC)
+      | ["ll"; c] -> (match hl_init (z_of_string c) ok with Some s -> print_endline ("init ok | " ^ ll_dump s); LL s | None -> NoC)
+      | ["qu"; c] -> (match hq_init (z_of_string c) ok with Some s -> print_endline ("init ok | " ^ qu_dump s); QU s | None -> NoC)
       | "ps" :: c :: rest ->
-        (match ps_init (u32 (z_of_string c)) ok with
+        (match hps_init (u32 (z_of_string c)) ok with
          | Some s ->
-           let s = (match rest with p :: _ when p <> "-" -> ps_preset s (z_of_string p) | _ -> s) in
+           let s = (match rest with p :: _ when p <> "-" -> hps_preset s (z_of_string p) | _ -> s) in
            print_endline ("init ok | " ^ ps_dump s); PS s
          | None -> NoC)
       | _ -> print_endline "init ?"; Oob in
@@ -149,9 +152,7 @@ let handle (lines : string list) : unit =
       | ST s -> let (s', r, f) = st_line s ws ok in state := ST s';
         print_endline (r ^ " | " ^ st_dump s' ^ " | " ^ freed f)
       | LL s -> let (s', r, f) = ll_line s ws ok in state := LL s';
-        (match f with
-         | None -> print_endline (r ^ " | " ^ ll_dump s' ^ " | " ^ freed [])
-         | Some f -> print_endline (r ^ " | " ^ ll_dump s' ^ " | " ^ freed f))
+        print_endline (r ^ " | " ^ ll_dump s' ^ " | " ^ freed f)
       | QU s -> let (s', r, f) = qu_line s ws ok in state := QU s';
         print_endline (r ^ " | " ^ qu_dump s' ^ " | " ^ freed f)
       | PS s ->
@@ -162,8 +163,8 @@ let handle (lines : string list) : unit =
     (match !state with
      | AL s -> print_endline ("end " ^ freed (snd (al_clear s)))
      | ST s -> print_endline ("end " ^ freed (snd (st_clear s)))
-     | LL s -> print_endline ("end " ^ freed (snd (ll_clear s)))
-     | QU s -> print_endline ("end " ^ freed (snd (qu_clear s)))
+     | LL s -> print_endline ("end " ^ (match hl_clear s with Some (_, f) -> freed f | None -> "STUCK"))
+     | QU s -> print_endline ("end " ^ (match hq_clear s with Some (_, f) -> freed f | None -> "STUCK"))
      | _ -> ())
 
 let () = run_cases handle
